@@ -4,6 +4,7 @@ import GarbleVerif.Proofs.BitMatch
 import GarbleVerif.Proofs.BitAgg
 import GarbleVerif.Proofs.BeqEncode
 import GarbleVerif.Proofs.BitIndex
+import GarbleVerif.Proofs.BitNot
 import GarbleVerif.Proofs.MatchComplete
 /-!
 # The bit-level evaluation of the core fragment refines the source semantics
@@ -514,6 +515,27 @@ theorem exprOK_succ (prog : Prog) (call : Ctx) (fuel : Nat) (ihE : ExprOK prog c
             simp only [List.cons.injEq, and_true] at hbs
             subst hbs
             simp [unop, ResRel, VRel, Rel, henv1]
+        · simp at hb
+      case int k =>
+        split at hb
+        · rename_i k' bs' p1 env1 ha
+          split at hb
+          · rename_i hk
+            subst hk
+            simp only [Option.some.injEq, Prod.mk.injEq] at hb
+            obtain ⟨rfl, rfl, rfl, rfl⟩ := hb
+            have ih := ihE a env benv _ _ _ _ henv ha
+            rw [evalExpr]
+            cases hev : evalExpr fuel prog env a with
+            | error er => rw [hev] at ih; exact ih.error_of id (fun _ => rfl)
+            | ok res =>
+              obtain ⟨va, enva⟩ := res
+              rw [hev] at ih
+              obtain ⟨rfl, hrel, henv1⟩ := ih
+              obtain ⟨n, rfl, hn, rfl⟩ := Rel.int_inv hrel
+              simp only [unop, ResRel, VRel]
+              exact ⟨trivial, ⟨not_inRange k' n, (enc_not k' n).symm⟩, henv1⟩
+          · simp at hb
         · simp at hb
       all_goals (simp at hb)
     | neg =>
